@@ -28,7 +28,7 @@ class Gen:
     def choose(s, name, k): return s.e.choose(name, k)
 
 
-def gen_doc(e, shape, L, final_nl_free=True, w=2, cont_hash=False, blank_cont=False):
+def gen_doc(e, shape, L, final_nl_free=True, w=2, cont_hash=False, blank_cont=False, eol_free=False):
     """returns (text: list of chars, paras: [[(name chars, [line chars...])...]...], kinds: [line kinds])
 
     S1: one layout per line kind: 'k: v' / ' v' / '#c' / '' with 1-char names and value lines, chars fully symbolic
@@ -73,7 +73,8 @@ def gen_doc(e, shape, L, final_nl_free=True, w=2, cont_hash=False, blank_cont=Fa
             text += [35] + cm
         else:
             cur = None
-        if not last or not final_nl_free or g.choose('fnl', 2): text += [10]
+        if not last or not final_nl_free or g.choose('fnl', 2):
+            text += [[10], [13], [13, 10]][g.choose('eol', 3)] if eol_free else [10]     # eol_free: the line ends in LF, a bare CR or CR LF
         prev = kind
     return text, paras, kinds
 
